@@ -507,15 +507,15 @@ func c19Oracle(in c19In) probe.Outcome {
 	if mayError {
 		labels = append(labels, "unencodable-alone")
 	}
-	// earlier payloads: same objects, unchanged
-	for i := range held {
-		if i >= len(c) || c[i] != held[i] {
-			return probe.Fail("%s replaced or removed earlier payload %d", in.Builder, i)
-		}
+	// earlier payloads: still there, in place, unchanged - both the container's entries and the objects the caller holds
+	if len(c) < len(held) {
+		return probe.Fail("%s removed earlier payloads", in.Builder)
 	}
-	priorAfter, err := bridge.FromLibPayloads(held)
-	if err != nil || model.DiffPayloads(in.Prior, priorAfter) != "" {
-		return probe.Fail("%s altered an earlier payload: %s", in.Builder, model.DiffPayloads(in.Prior, priorAfter))
+	for _, view := range []message.IKEPayloadContainer{c[:len(held)], held} {
+		priorAfter, err := bridge.FromLibPayloads(view)
+		if err != nil || model.DiffPayloads(in.Prior, priorAfter) != "" {
+			return probe.Fail("%s altered or replaced an earlier payload: %s", in.Builder, model.DiffPayloads(in.Prior, priorAfter))
+		}
 	}
 	if berr != nil {
 		if !oversize {
